@@ -1,10 +1,12 @@
 """C08 - restart transparency: a warm start continues as if the run never stopped."""
+from contracts import filenames as F
 from contracts import model as M
+from contracts import release_cont as RC
 from contracts import output as O
 from contracts import timekeeper as K
 from contracts import warm as W
 
-UNITS = [W.WarmStart(), W.WarmStart(with_pdim=False), M.ModelInit(True), M.ModelInit(False), O.OutputInitRecords(True), O.OutputUpdate(), O.WritePV("sparse"), K.TKStep2Time()]
+UNITS = [W.WarmStart(), W.WarmStart(with_pdim=False), M.ModelInit(True), M.ModelInit(False), O.OutputInitRecords(True), O.OutputUpdate(), O.WritePV("sparse"), K.TKStep2Time(), RC.Discretize()] + F.FILENAME_UNITS
 LEMMAS = [M.MainLoopStructure(), M.RecordSchedule()]
 NATIVE = [dict(name="cold split run vs restart from every completed file (real Model, configure_v2, warm_start)", harness="restart_bounded", kind="bounded", timeout=3000)]
 LEVEL = "other"
